@@ -395,7 +395,15 @@ class Records(Base):
             sig = "serix:%s:%s:%s" % (direction, kinds[rec["s"]], cls)
             valid = bool(want.get("ok"))
             if not self.wanted(sig, valid):
-                continue
+                # TLC names the FIRST clause a record breaks; an Encode whose bytes differ from the layout (a C03 class) may
+                # in addition not decode back to the value - the record carries the real Decode of the produced bytes (rt):
+                # that is a C01 violation in its own right and must not be masked by the earlier clause
+                rt = rec.get("rt") or {}
+                broken_rt = rec.get("k") == "enc" and rec.get("ok") and (not rt.get("ok") or rt.get("n") != len(rec.get("b") or []))
+                if not (self.prop == "C01" and broken_rt):
+                    continue
+                sig = "serix:encode:%s:does-not-decode-back" % kinds[rec["s"]]
+                why = "roundtrip-rejected"
             classes[sig] = classes.get(sig, 0) + 1
             self.report(ctx, sig, describe(rec, why, want) + "  [flow %s]" % self.name,
                         {"kind": "record", "rec": rec, "why": why, "want": want})
